@@ -92,6 +92,7 @@ def analyse():
     mutable = set()
     lazy_sites = {}       # (class, attr) -> [(method, guarded, ignored args)]
     sub_memo = []
+    stale_keys = []
     for cn, c in classes.items():
         for mn, fn in c["methods"].items():
             if mn == "__init__":
@@ -149,7 +150,22 @@ def analyse():
                             used = closure({x.id for x in ast.walk(n.value) if isinstance(x, ast.Name)}) if not isinstance(n, ast.AugAssign) and n.value is not None else set()
                             ignored = [p for p in params if p in used and p not in closure(names)]
                             lazy_sites.setdefault((cn, t.attr), []).append((mn, guarded and not isinstance(n, ast.AugAssign), ignored))
-    hand_memo = list(sub_memo)
+                            # single-slot memo keyed on another field: `if self.a is None or x != self.k: self.a = f(x)` must also store x in
+                            # self.k inside the guarded block, or the slot keeps answering for the key it was filled with first
+                            if guarded and isinstance(q, ast.If):
+                                stored = {y.attr for b in q.body for x in ast.walk(b) if isinstance(x, (ast.Assign, ast.AnnAssign, ast.AugAssign))
+                                          for tt in (x.targets if isinstance(x, ast.Assign) else [x.target]) for y in ast.walk(tt)
+                                          if isinstance(y, ast.Attribute) and isinstance(y.value, ast.Name) and y.value.id == "self"}
+                                for cmp_ in [x for x in ast.walk(q.test) if isinstance(x, ast.Compare)]:
+                                    sides = [cmp_.left] + list(cmp_.comparators)
+                                    kfields = {y.attr for sd in sides for y in ast.walk(sd)
+                                               if isinstance(y, ast.Attribute) and isinstance(y.value, ast.Name) and y.value.id == "self"}
+                                    argside = closure({y.id for sd in sides for y in ast.walk(sd) if isinstance(y, ast.Name)}) & set(params)
+                                    for kf in sorted(kfields - stored - together):
+                                        if argside:
+                                            stale_keys.append((cn, mn, ["key field %s of the single-slot memo %s is compared with argument %s but never updated in the guarded block"
+                                                                        % (kf, t.attr, sorted(argside)[0])]))
+    hand_memo = list(sub_memo) + [x for i, x in enumerate(stale_keys) if x not in stale_keys[:i]]
     for (cn, attr), sites in lazy_sites.items():
         if all(g for _, g, _ in sites):
             for mn, _, ignored in sites:
@@ -231,7 +247,104 @@ def analyse():
                     cached.append((cn, mn, c["file"], sorted("%s.%s" % x for x in reach[(cn, mn)])))
     for cn, mn, why in hand_memo:
         cached.append((cn, mn, classes[cn]["file"], sorted(why)))
-    return sorted(cached), sorted(mutable)
+    # `lru_cache` on a method keys on `self` through the class's __eq__/__hash__: when a class defines them, every attribute a memoised body
+    # of that class reads must take part in the comparison, or two unequal-in-that-attribute objects share cache entries
+    def self_attrs(fn):
+        return {x.attr for x in ast.walk(fn) if isinstance(x, ast.Attribute) and isinstance(x.value, ast.Name) and x.value.id == "self"}
+    for cn, c in classes.items():
+        eq = None
+        for a in ancestors(cn):
+            eq = eq or classes[a]["methods"].get("__eq__")
+        if eq is None:
+            continue
+        compared = self_attrs(eq)
+        for a in ancestors(cn):
+            for mn, fn in classes[a]["methods"].items():
+                if any(((d.func if isinstance(d, ast.Call) else d).id if isinstance((d.func if isinstance(d, ast.Call) else d), ast.Name)
+                        else getattr((d.func if isinstance(d, ast.Call) else d), "attr", "")) == "lru_cache" for d in fn.decorator_list):
+                    missing = sorted(x for x in self_attrs(fn) if x not in compared and not any(x in classes[b]["methods"] for b in ancestors(cn)))
+                    if missing:
+                        cached.append((cn, mn, c["file"], ["memoised per object through __eq__/__hash__, which ignore attribute %s" % x for x in missing]))
+    return sorted(set((a, b, c_, tuple(d)) for a, b, c_, d in cached)), sorted(mutable)
+
+
+MUTATORS = {"append", "extend", "insert", "pop", "remove", "sort", "reverse", "clear", "update", "setdefault", "popitem", "add", "discard"}
+
+
+def arg_mutations():
+    """(class or module, function, parameter) for every in-place change of a caller-supplied argument: a mutating method call, an item or
+    slice assignment, `del x[...]` or an augmented assignment on a parameter, or on a local name that is a plain alias of one (`y = x`).
+    A name that is rebound anywhere in the function to something else (`x = list(x)`, `x = Parse(x)`) no longer denotes the argument and
+    is left out (conservative: flow-insensitive).  `self` / `cls` are the object itself, not a caller-supplied input."""
+    out = []
+    for dp, _, fs in os.walk(ROOT):
+        for f in sorted(fs):
+            if not f.endswith(".py"):
+                continue
+            path = os.path.join(dp, f)
+            tree = ast.parse(open(path).read())
+            mod = os.path.relpath(path, ROOT)[:-3].replace(os.sep, ".")
+
+            def visit(node, owner):
+                for it in ast.iter_child_nodes(node):
+                    if isinstance(it, ast.ClassDef):
+                        visit(it, it.name)
+                    elif isinstance(it, (ast.FunctionDef, ast.AsyncFunctionDef)):
+                        check(it, owner)
+                        visit(it, owner)
+                    else:
+                        visit(it, owner)
+
+            def check(fn, owner):
+                a = fn.args
+                params = [x.arg for x in a.posonlyargs + a.args + a.kwonlyargs] + ([a.vararg.arg] if a.vararg else []) + ([a.kwarg.arg] if a.kwarg else [])
+                params = [p for p in params if p not in ("self", "cls")]
+                if not params:
+                    return
+                own = [n for n in ast.walk(fn)]
+                assigns = {}       # local name -> list of value nodes it is bound to
+                for n in own:
+                    if isinstance(n, ast.Assign):
+                        for t in n.targets:
+                            for nm in ([t] if isinstance(t, ast.Name) else [e for e in getattr(t, "elts", []) if isinstance(e, ast.Name)]):
+                                assigns.setdefault(nm.id, []).append(n.value if isinstance(t, ast.Name) else None)
+                    elif isinstance(n, ast.AnnAssign) and isinstance(n.target, ast.Name) and n.value is not None:
+                        assigns.setdefault(n.target.id, []).append(n.value)
+                    elif isinstance(n, (ast.For, ast.comprehension)) and isinstance(n.target, ast.Name):
+                        assigns.setdefault(n.target.id, []).append(None)
+                    elif isinstance(n, ast.With):
+                        for wi in n.items:
+                            if isinstance(wi.optional_vars, ast.Name):
+                                assigns.setdefault(wi.optional_vars.id, []).append(None)
+                denotes = {p: p for p in params if p not in assigns}      # names that denote a caller's object throughout
+                changed = True
+                while changed:
+                    changed = False
+                    for nm, vals in assigns.items():
+                        if nm not in denotes and nm not in params and vals and all(isinstance(v, ast.Name) and v.id in denotes for v in vals):
+                            srcs = {denotes[v.id] for v in vals}
+                            if len(srcs) == 1:
+                                denotes[nm] = srcs.pop()
+                                changed = True
+                for n in own:
+                    hit = None
+                    if isinstance(n, ast.Call) and isinstance(n.func, ast.Attribute) and n.func.attr in MUTATORS and isinstance(n.func.value, ast.Name):
+                        hit = n.func.value.id
+                    elif isinstance(n, (ast.Assign, ast.AugAssign, ast.Delete)):
+                        tg = n.targets if isinstance(n, (ast.Assign, ast.Delete)) else [n.target]
+                        for t in tg:
+                            if isinstance(t, ast.Subscript) and isinstance(t.value, ast.Name):
+                                hit = t.value.id
+                            elif isinstance(n, ast.AugAssign) and isinstance(t, ast.Name) and isinstance(n.op, (ast.Add, ast.BitOr, ast.Mult)) \
+                                    and t.id in params and len(assigns.get(t.id, [])) == 0:
+                                # `p += [...]` extends a list argument in place (harmless for immutable ints / bytes / str: only flagged when the
+                                # right-hand side is a list / set / dict display or comprehension)
+                                if isinstance(n.value, (ast.List, ast.ListComp, ast.Set, ast.SetComp, ast.Dict, ast.DictComp)):
+                                    hit = t.id
+                    if hit is not None and hit in denotes:
+                        out.append((owner or mod, fn.name, denotes[hit]))
+            visit(tree, "")
+    return sorted(set(out))
 
 
 def main():
@@ -241,7 +354,9 @@ def main():
     src += "def cachedMethods : List (String × String × List String) := [\n"
     src += ",\n".join('  ("%s", "%s", [%s])' % (c, m, ", ".join('"%s"' % r for r in rs)) for c, m, f, rs in cached)
     src += "\n]\n\n/-- attributes assigned outside `__init__` (the mutable state of the package) -/\n"
-    src += "def mutableAttrs : List String := [%s]\n\nend BipVerif.Gen\n" % ", ".join('"%s.%s"' % x for x in mutable)
+    src += "def mutableAttrs : List String := [%s]\n\n" % ", ".join('"%s.%s"' % x for x in mutable)
+    src += "/-- (class or module, function, parameter): every in-place change of a caller-supplied argument found in the package -/\n"
+    src += "def argMutations : List (String × String × String) := [%s]\n\nend BipVerif.Gen\n" % ", ".join('("%s", "%s", "%s")' % x for x in arg_mutations())
     write_if_changed(os.path.join(LEAN, "BipVerif", "Gen", "Caches.lean"), src)
     return cached, mutable
 
